@@ -8,6 +8,8 @@ TRUST = ("Trusted base: CrossHair 0.0.110's symbolic model of CPython str/int/li
          "per query in the evidence file, nothing is claimed outside them.")
 TECH = "bounded symbolic execution of the real Python functions (CrossHair proxies + z3), path tree exhausted per query; counterexamples replayed natively"
 CLAIMED = {
+    "C16": ("6 C16", "Sheet selection, string / boolean dispatch and padding of excel_rows decided over a fake workbook (S-XLRD) for every requested sheet, every string cell up to 3 characters and all boolean values. Number, date and time rendering and the XlsxRowWriter round trip are float / C territory and are exercised natively on sample workbooks made by xlsxwriter (stated as such; not a solver verdict)."),
+    "C17": ("6 C17", "Relational query per field type: the same declaration loaded through the real CID loader under Format delimited / ods / excel gives the same verdict and value for every cell (unbounded or bounded as stated) and every parser outcome (S-INT / S-DEC / S-STRP), except the documented Excel date suffix. Storage of one CID and one table as csv / ods / xlsx files is compared natively."),
     "C15": ("6 C15", "rowio.ods_rows over real ElementTree trees of encoder-made documents with symbolic repeat counts (S-INT and as text through the real int()), symbolic requested sheet (incl. tables that are not sheets), symbolic cell texts, and archive / parser faults of every documented exception type (S-ZIP / S-XML); each optional ODF encoding (column runs, row runs, white space elements, spans, paragraphs, empty paragraphs) and broken archives exercised natively on real files. One genuine defect (row runs) is a recorded known finding."),
     "C14": ("6 C14", "Real Writer + real FixedRowWriter on a recording stream: the characters written are exactly the padded accepted rows with the declared line delimiter (one fully symbolic row per query in the quick tier, others concrete accepted / rejected rows; header 0..1; a target that cannot encode a character; a path target must be closed even when the end-of-data check fails); delimited: rows handed to the csv writer = accepted rows (S-CSVW); read-back: every text in written form is accepted row by row by real fixed_rows + Reader."),
     "C18": ("6 C18", "applications.main/process/CutplaceApp.validate with option parsing, CID loader and Reader stubbed: the exit code decided for every list of 0-3 data files with symbolic per-file outcome (accepted / data error / check error at close / unreadable) and CID outcome; every file up to the first unreadable one is judged in order; the --until mapping decided for every integer."),
